@@ -224,7 +224,10 @@ def fault_run(tmpl: Template, k: int, errname: str, eligible_kinds):
             # handle's index session may get committed by the next call, so it must never point at bytes that are not in the pack.
             # (Only after faults that leave the written bytes in place: sync calls, flush, SQL statements/commit.)
             try:
-                world.handle().add_objects_to_pack([FOLLOWUP_CONTENT])
+                if k % 2 == 0:
+                    world.handle().add_objects_to_pack([FOLLOWUP_CONTENT])
+                else:
+                    world.handle().clean_storage()  # must never act on index rows the failed call left uncommitted
                 info['followup'] = 'committed'
             except BaseException as exc:  # noqa: BLE001 - the handle may legitimately be unusable after the error
                 info['followup'] = f'raised {type(exc).__name__}'
